@@ -200,6 +200,44 @@ struct Step {
     classes: BTreeSet<&'static str>,
 }
 
+/// Prepares step `n`; a `BadSig` of kind "replayed signature" looks at the earlier valid
+/// publishes of the same key to find the packet the server currently stores for it.
+fn prepare_at(ops: &[Op], n: usize, e: &Env) -> Step {
+    let op = &ops[n];
+    if let Op::BadSig { signer, how, recs, .. } = op {
+        if how % 7 == 6 {
+            let s = *signer as usize % NKEYS;
+            // newest earlier valid packet of this key under (timestamp, dns bytes)
+            let mut stored: Option<(u64, Vec<u8>, Vec<u8>)> = None;
+            for (m, prev) in ops[..n].iter().enumerate() {
+                if let Op::Publish { key, .. } = prev {
+                    if *key as usize % NKEYS == s {
+                        let st = prepare(prev, m, e);
+                        if let Some((ts, dns, _)) = st.valid {
+                            if stored.as_ref().is_none_or(|(t, d, _)| (ts, &dns) > (*t, d)) {
+                                stored = Some((ts, dns, st.body));
+                            }
+                        }
+                    }
+                }
+            }
+            if let Some((ts, _dns, body)) = stored {
+                // the stored packet's signature in front of a newer timestamp and other records
+                let (records, mut classes) = packet_records(recs, s, &e.zs, n);
+                let mut records = records;
+                records.push(Rec { owner: format!("_iroh.{}", e.zs[s]), ttl: 30, rd: RD::Txt(format!("replayed={n}")) });
+                let dns = dnssrv::build_dns(&records, true);
+                let mut forged = body[..64].to_vec();
+                forged.extend_from_slice(&(ts + 1 + n as u64).to_be_bytes());
+                forged.extend_from_slice(&dns);
+                classes.insert("badsig:replayed-stored-signature");
+                return Step { path_key: s, body: forged, valid: None, all_records: records, classes };
+            }
+        }
+    }
+    prepare(op, n, e)
+}
+
 fn prepare(op: &Op, n: usize, e: &Env) -> Step {
     match op {
         Op::Publish { key, ts, recs, compressed } => {
@@ -277,7 +315,7 @@ fn universe(case: &Case, e: &Env) -> Vec<(String, u16)> {
     }
     let mut flip = false;
     for (n, op) in case.ops.iter().enumerate() {
-        let step = prepare(op, n, e);
+        let step = prepare_at(&case.ops, n, e);
         for r in &step.all_records {
             flip = !flip;
             let owner = dnssrv::canon_name(&r.owner);
@@ -360,7 +398,7 @@ fn run_blackbox(case: &Case) -> Outcome {
         let mut model = Model { keys: (0..NKEYS).map(|_| None).collect() };
         let res = async {
             for (n, op) in case.ops.iter().enumerate() {
-                let step = prepare(op, n, &e);
+                let step = prepare_at(&case.ops, n, &e);
                 let r = http.pkarr_put(&e.zs[step.path_key], &step.body).await;
                 match &step.valid {
                     Some((ts, dns, served)) => {
@@ -434,7 +472,7 @@ fn run_inproc(case: &Case) -> Outcome {
     // relative names to ask per key, from every record of the case
     let mut asks: BTreeMap<usize, BTreeSet<String>> = BTreeMap::new();
     for (n, op) in case.ops.iter().enumerate() {
-        for r in prepare(op, n, &e).all_records {
+        for r in prepare_at(&case.ops, n, &e).all_records {
             if let Some((k, owner)) = split_qname(&e.zs, &dnssrv::canon_name(&r.owner)) {
                 let rel = owner.strip_suffix(e.zs[k].as_str()).unwrap().trim_end_matches('.').to_string();
                 asks.entry(k).or_default().insert(rel);
@@ -446,7 +484,7 @@ fn run_inproc(case: &Case) -> Outcome {
         let mut model = Model { keys: (0..NKEYS).map(|_| None).collect() };
         let res = async {
             for (n, op) in case.ops.iter().enumerate() {
-                let step = prepare(op, n, &e);
+                let step = prepare_at(&case.ops, n, &e);
                 let path_pk = PublicKey::from_bytes(&e.pks[step.path_key]).expect("harness key");
                 let parsed = SignedPacket::from_relay_payload(&path_pk, &step.body);
                 match (&step.valid, parsed) {
@@ -511,7 +549,7 @@ fn rec_spec() -> impl Strategy<Value = RecSpec> {
 fn strategy() -> impl Strategy<Value = Case> {
     let publish = (0u8..3, 0u8..6, proptest::collection::vec(rec_spec(), 0..=6), any::<bool>())
         .prop_map(|(key, ts, recs, compressed)| Op::Publish { key, ts, recs, compressed });
-    let bad = (0u8..3, 0u8..6, 0u8..2, any::<u16>(), proptest::collection::vec(rec_spec(), 1..=3))
+    let bad = (0u8..3, prop_oneof![3 => 0u8..6, 2 => Just(6u8)], 0u8..2, any::<u16>(), proptest::collection::vec(rec_spec(), 1..=3))
         .prop_map(|(signer, how, other, at, recs)| Op::BadSig { signer, how, other, at, recs });
     let op = prop_oneof![3 => publish, 2 => bad];
     (any::<u64>(), proptest::collection::vec(op, 1..=8)).prop_map(|(seed, ops)| Case { seed, ops })
